@@ -9,6 +9,7 @@ History = list of ops (JSON):
   ["uspec", spec, data, out]  one un-materialized ModelSpec per (spec, out) shared by the history: .get_model_matrix(...)
   ["reuse", k, data]          (result of call k).model_spec.get_model_matrix(D[data], context=CTX, drop_rows=S)
   ["mm_of", k, data]          model_matrix(<result of call k>, D[data], context=CTX, drop_rows=S)
+  ["joint", [k1, k2], data]   ModelSpecs(p0=<spec of call k1>, p1=<spec of call k2>).get_model_matrix(D[data], ...)
 spec: formula string, or list / dict of strings (mutable formula specs).
 """
 import copy
@@ -56,7 +57,10 @@ def _double(x):
 
 
 def make_context():
-    return {"k": 2.5, "offset": np.array([1.0, 2.0, 3.0]), "double": _double, "lv": ["u", "v", "w"]}
+    """Mutable objects that formulas reference by name and hand to transforms as arguments."""
+    return {"k": 2.5, "offset": np.array([1.0, 2.0, 3.0]), "double": _double, "lv": ["u", "v", "w"],
+            "kn": [3.0, 5.0], "kn2": [2.5, 4.0, 6.0], "cm": {"uv": [1.0, -1.0, 0.0], "vw": [0.0, 1.0, -1.0]},
+            "ctr": [0.5], "pw": np.array([1.0, 2.0])}
 
 
 def _leaves(o, path=()):
@@ -146,9 +150,7 @@ def run_history(ops):
     D = make_frames()
     D_before = {k: copy.deepcopy(v) for k, v in D.items()}
     CTX = make_context()
-    CTX_before = dict(CTX)
-    CTX_before["offset"] = CTX["offset"].copy()
-    CTX_before["lv"] = list(CTX["lv"])
+    CTX_before = {k: (v if callable(v) else copy.deepcopy(v)) for k, v in CTX.items()}
     specs_live, specs_before = {}, {}
     shared_F, shared_F_before, shared_S = {}, {}, {}
     results, calls, mutations = [], [], []
@@ -183,6 +185,15 @@ def run_history(ops):
                 if isinstance(prev, BaseException):
                     raise RuntimeError("SKIP: the call this one depends on raised")
                 res = prev.model_spec.get_model_matrix(D[op[2]], context=CTX, drop_rows=S)
+            elif kind == "joint":
+                # the specs obtained from earlier calls combined in ONE ModelSpecs and built jointly
+                prevs = [results[k] for k in op[1]]
+                if any(isinstance(pv, BaseException) for pv in prevs):
+                    raise RuntimeError("SKIP: the call this one depends on raised")
+                from formulaic import ModelSpecs
+
+                joint = ModelSpecs(**{"p%d" % j: pv.model_spec for j, pv in enumerate(prevs)})
+                res = joint.get_model_matrix(D[op[2]], context=CTX, drop_rows=S)
             elif kind == "mm_of":
                 prev = results[op[1]]
                 if isinstance(prev, BaseException):
